@@ -32,7 +32,7 @@ C19) targets="lint_choices dump_yaml" ;;
 esac
 
 if ! (cd "$ROOT/harness" && RUSTFLAGS="--cfg rajanmaghera_riscv_analysis_verif" \
-        cargo +nightly fuzz build --target-dir "$FT" $targets >"$ROOT/.cache/build-fuzz.log" 2>&1); then
+        cargo +nightly fuzz build --target-dir "$FT" >"$ROOT/.cache/build-fuzz.log" 2>&1); then
     echo "fuzz targets do not build" >&2
     grep -E "^error" -A 12 "$ROOT/.cache/build-fuzz.log" | head -40 >&2
     exit 2
